@@ -16,6 +16,8 @@ EXTRA = {"C01-C": ["C07"], "C02-C": ["C16", "C10"], "C03-C": ["C16", "C10"], "C0
          "C02-E": ["C10"], "C02-F": ["C03", "C09"], "C06-E": ["C01", "C07"], "C06-F": ["C17"], "C07-E": ["C01"], "C07-F": ["C13"], "C08-E": ["C18", "C10", "C16"], "C08-F": ["C15"],
          "C09-E": ["C02"], "C10-E": ["C08", "C16"], "C10-F": ["C02"], "C16-E": ["C17"], "C16-F": ["C18", "C05"], "C18-E": ["C10"], "C18-F": ["C02", "C04"], "C04-F": ["C08"],
          "C01-E": ["C07"], "C01-F": ["C06"], "C05-E": ["C08"], "C05-F": ["C02"], "C12-E": ["C11"], "C12-F": ["C02", "C10"], "C13-E": ["C14"], "C13-F": ["C14"], "C14-E": ["C13"], "C14-F": ["C17"],
+         "C02-G": ["C09", "C03"], "C02-H": ["C03", "C09"], "C05-G": ["C15"], "C05-H": ["C17", "C10"], "C08-G": ["C04", "C02"], "C08-H": ["C03"], "C09-G": ["C02", "C08"], "C09-H": ["C02"],
+         "C10-G": ["C17", "C05"], "C10-H": ["C08"], "C03-G": ["C10"], "C03-H": ["C16"], "C11-G": ["C12"], "C11-H": ["C12"], "C16-G": ["C17"], "C16-H": ["C10"], "C17-G": ["C06"], "C17-H": ["C18"], "C18-G": ["C04", "C09"], "C18-H": ["C11"],
          "C15-E": ["C05"], "C15-F": ["C05"], "C17-F": ["C18"], "C19-E": ["C01"], "C19-F": ["C01"],
          "C02-B": ["C16"], "C05-B": ["C16"], "C07-B": ["C17"], "C13-B": ["C17"], "C03-B": ["C10"], "C10-A": ["C03"], "C16-B": ["C05"], "C08-B": ["C03", "C04"], "C01-B": ["C06"], "C06-B": ["C01"]}
 
